@@ -29,6 +29,49 @@ type gzSpec struct {
 	Count  int    `json:"count"`
 	Name   int    `json:"name"`
 	Pay    int    `json:"pay"`
+	// Hdr: header field grid file: the fixed header fields of every member are
+	// the given ones (compress/gzip: MTIME and OS; XFL follows from the level there).
+	Hdr *gzHdr `json:"hdr,omitempty"`
+}
+
+// gzHdr: MTIME, XFL and OS of RFC 1952 2.3.1.
+type gzHdr struct {
+	Mtime uint32 `json:"mtime"`
+	XFL   byte   `json:"xfl"`
+	OS    byte   `json:"os"`
+}
+
+// RFC 1952 2.3.1 OS values, lower case without punctuation (255 = unknown has no name).
+var gzOSNames = map[byte]string{0: "fat", 1: "amiga", 2: "vms", 3: "unix", 4: "vmcms", 5: "ataritos", 6: "hpfs", 7: "macintosh",
+	8: "zsystem", 9: "cpm", 10: "tops20", 11: "ntfs", 12: "qdos", 13: "acornriscos"}
+
+// XFL for deflate: 2 = maximum compression, slowest algorithm; 4 = fastest algorithm
+var gzXFLNames = map[byte]string{2: "slow", 4: "fast"}
+
+func normName(s string) string {
+	var b []byte
+	for i := 0; i < len(s); i++ {
+		ch := s[i]
+		if ch >= 'A' && ch <= 'Z' {
+			ch += 'a' - 'A'
+		}
+		if ch >= 'a' && ch <= 'z' || ch >= '0' && ch <= '9' {
+			b = append(b, ch)
+		}
+	}
+	return string(b)
+}
+
+// boundary values of a 32 bit and an 8 bit field: every bit set and clear, sign and wrap edges
+var u32Grid = []uint32{0, 1, 0x7fffffff, 0x80000000, 0xffffffff, 0x55555555, 0xaaaaaaaa}
+var u8Grid = []byte{0, 1, 0x7f, 0x80, 0xff, 0x55, 0xaa}
+
+func walk32() []uint32 {
+	var l []uint32
+	for i := 0; i < 32; i++ {
+		l = append(l, 1<<i, ^uint32(1<<i))
+	}
+	return l
 }
 
 type gzMember struct {
@@ -111,7 +154,7 @@ func handGzipMember(m *gzMember, level int, base int) []byte {
 	return b.Bytes()
 }
 
-func stdGzipMember(m *gzMember, level int, base int) []byte {
+func stdGzipMember(m *gzMember, level int, base int, setOS bool) []byte {
 	var b bytes.Buffer
 	w, err := gzip.NewWriterLevel(&b, level)
 	if err != nil {
@@ -131,7 +174,13 @@ func stdGzipMember(m *gzMember, level int, base int) []byte {
 		w.Comment = m.Comment
 		hl += len(m.Comment) + 1
 	}
-	w.ModTime = time.Unix(int64(m.Mtime), 0)
+	// compress/gzip stores uint32(ModTime.Unix()) when ModTime is after the epoch, else 0
+	if m.Mtime != 0 {
+		w.ModTime = time.Unix(int64(m.Mtime), 0)
+	}
+	if setOS {
+		w.OS = m.OS
+	}
 	m.OS = w.OS
 	if _, err := w.Write(m.Payload); err != nil {
 		return nil
@@ -159,6 +208,12 @@ func gzBuild(spec any) *genFile {
 		case 1:
 			m.XFL = 4
 		}
+		if sp.Hdr != nil {
+			m.Mtime, m.OS = sp.Hdr.Mtime, sp.Hdr.OS
+			if sp.Writer == "hand" {
+				m.XFL = sp.Hdr.XFL
+			}
+		}
 		if sp.Flags&fEXTRA != 0 {
 			m.Extra = []byte{'A', 'p', 3, 0, 'x', byte(i), 'z'}
 		}
@@ -176,13 +231,19 @@ func gzBuild(spec any) *genFile {
 			if _, ok := latin1(m.Name); !ok {
 				return nil
 			}
-			b = stdGzipMember(m, sp.Level, len(out))
+			b = stdGzipMember(m, sp.Level, len(out), sp.Hdr != nil)
 			if b == nil {
 				return nil
 			}
 		} else {
-			m.OS = 3
+			if sp.Hdr == nil {
+				m.OS = 3
+			}
 			b = handGzipMember(m, sp.Level, len(out))
+		}
+		// what the writer really stored: MTIME, XFL, OS at their fixed offsets
+		if binary.LittleEndian.Uint32(b[4:]) != m.Mtime || b[8] != m.XFL || b[9] != m.OS {
+			panic(fmt.Sprintf("c15 harness error: gzip writer %s stored mtime/xfl/os %x, asked for %d/%d/%d", sp.Writer, b[4:10], m.Mtime, m.XFL, m.OS))
 		}
 		out = append(out, b...)
 		exp.Members = append(exp.Members, m)
@@ -196,6 +257,11 @@ func gzBuild(spec any) *genFile {
 		f.Desc += fmt.Sprintf(" name=%s payload=%s", gzNameLabels[sp.Name], pays[sp.Pay].Name)
 	}
 	f.Nontriv = sp.Count > 0 && (sp.Flags != 0 || len(exp.Members[0].Payload) > 0 || sp.Count > 1)
+	if sp.Hdr != nil {
+		f.Desc += fmt.Sprintf(" hdr(mtime=%d xfl=%d os=%d)", sp.Hdr.Mtime, sp.Hdr.XFL, sp.Hdr.OS)
+		// header field grid files take no part in the fault enumeration
+		return f
+	}
 	for i, m := range exp.Members {
 		pre := fmt.Sprintf("member%d.", i)
 		if m.Flags&fHCRC != 0 {
@@ -211,8 +277,73 @@ func gzBuild(spec any) *genFile {
 	return f
 }
 
+// gzHdrGrid: quick = a covering list (every value of every field once, the other
+// fields at a default); thorough = the full product over the wider value lists.
+func gzHdrGrid(wide bool) []gzHdr {
+	mt := append([]uint32{}, u32Grid...)
+	var xfl, os []byte
+	xfl = append(xfl, u8Grid...)
+	xfl = append(xfl, 2, 4)
+	os = append(os, u8Grid...)
+	for v := byte(2); v <= 14; v++ {
+		os = append(os, v)
+	}
+	for i := 0; i < 8; i++ {
+		xfl = append(xfl, 1<<i, ^byte(1<<i))
+		os = append(os, 1<<i, ^byte(1<<i))
+	}
+	var l []gzHdr
+	seen := map[gzHdr]bool{}
+	add := func(h gzHdr) {
+		if !seen[h] {
+			seen[h] = true
+			l = append(l, h)
+		}
+	}
+	if wide {
+		mt = append(mt, walk32()...)
+		for _, m := range mt {
+			for _, x := range xfl {
+				for _, o := range os {
+					add(gzHdr{m, x, o})
+				}
+			}
+		}
+		return l
+	}
+	for _, m := range append(mt, walk32()...) {
+		add(gzHdr{m, 2, 3})
+	}
+	for _, x := range xfl {
+		add(gzHdr{1600000000, x, 3})
+	}
+	for _, o := range os {
+		add(gzHdr{1600000000, 2, o})
+	}
+	return l
+}
+
 func gzEnum(r *core.Run, emit func(any)) {
 	emit(&gzSpec{Writer: "hand", Count: 0})
+	// header field grid: FLG 0 and FNAME|FCOMMENT are the two flag bytes fq reads right
+	for _, w := range []string{"std", "hand"} {
+		seen := map[gzHdr]bool{}
+		for _, h := range gzHdrGrid(r.Thorough()) {
+			h := h
+			if w == "std" {
+				h.XFL = 2 // follows from level 9
+				if seen[h] {
+					continue
+				}
+				seen[h] = true
+			}
+			for _, flags := range []int{0, fNAME | fCOMMENT} {
+				for count := 1; count <= core.Pick(r, 1, 2); count++ {
+					emit(&gzSpec{Writer: w, Level: 9, Flags: flags, Count: count, Name: 0, Pay: 2, Hdr: &h})
+				}
+			}
+		}
+	}
 	for _, w := range []string{"std", "hand"} {
 		for _, level := range []int{0, 1, 9} {
 			for flags := 0; flags < 32; flags += 2 { // every subset of FHCRC, FEXTRA, FNAME, FCOMMENT
@@ -237,7 +368,7 @@ def obs: {
   err: errs, fmt: (try format catch null), validity: validity,
   members: [.members[]? | {
     cm: (.compression_method|act), flags: (.flags | if type == "null" then null else tovalue({bits_format:"string"}) end),
-    mtime: (.mtime|act), xfl: (.extra_flags|act), os: (.os|act),
+    mtime: (.mtime|act), mtime_desc: (.mtime|desc), xfl: (.extra_flags|act), xfl_sym: (.extra_flags|._sym|plain), os: (.os|act), os_sym: (.os|._sym|plain),
     xlen: (.xlen|act), extra: (.extra_fields|tb), name: (.name|act), comment: (.comment|act), hcrc: (.header_crc|tb),
     unc: (.uncompressed|tb), comp: (.compressed|tb), crc: (.crc32|act), crc_desc: (.crc32|desc), isize: (.isize|act)}],
   unc: (.uncompressed | nested),
@@ -306,8 +437,22 @@ func gzCheck(f *genFile, o map[string]any, probe bool) []mm {
 			c.num("flags.reserved", fl["reserved"], 0)
 		}
 		c.num("mtime", m["mtime"], int64(e.Mtime))
+		c.str("mtime.description", m["mtime_desc"], rfc3339UTC(int64(e.Mtime)))
 		c.num("extra_flags", m["xfl"], int64(e.XFL))
 		c.num("os", m["os"], int64(e.OS))
+		// the names fq shows for XFL and OS against the RFC 1952 tables (spelling of
+		// separators and case is fq's own: compared lower case without punctuation)
+		symCheck := func(field string, got any, want string, v byte) {
+			g, isStr := gs(got)
+			if want == "" && got == nil {
+				return
+			}
+			if want == "" || !isStr || normName(g) != want {
+				c.add(fmt.Sprintf("%s.sym:%d", field, v), fmt.Sprintf("%s %d: fq shows the name %s, RFC 1952 says %s", field, v, show(got), show(want)))
+			}
+		}
+		symCheck("extra_flags", m["xfl_sym"], gzXFLNames[e.XFL], e.XFL)
+		symCheck("os", m["os_sym"], gzOSNames[e.OS], e.OS)
 		if e.Flags&fEXTRA != 0 {
 			c.num("xlen", m["xlen"], int64(len(e.Extra)))
 			c.bytes("extra_fields", m["extra"], e.Extra)
